@@ -61,7 +61,8 @@ func run(c *lib.Ctx) error {
 		safety = []mc{{3, 2, 0}, {2, 3, 1}}
 		live = mc{2, 3, 1}
 	}
-	c.Set("bounds", map[string]any{"safety(NS,ND,crashes)": safety, "liveness(NS,ND,crashes)": live, "K": 2, "G": "NS=2 ND=3 K=2"})
+	c.Set("bounds", map[string]any{"safety(NS,ND,crashes)": fmt.Sprint(safety), "liveness(NS,ND,crashes)": fmt.Sprint(live), "K": 2, "G": "NS=2 ND=3 K=2 crashes=0",
+		"V": fmt.Sprintf("%d free-running races of 2-5 shells + 1 directed probe", c.Pick(40, 450))})
 	jobs := []*tlcJob{
 		{name: "MCActivation G first violations + terminal behaviours", run: lib.TLCRun{Dir: dir, Module: "MCActivation", Workers: 1, HeapGB: 4, Timeout: 13 * time.Minute,
 			Files: map[string][]byte{"MCActivation.cfg": mcCfg(2, 3, 2, 0, true, "SpecG", "VIEW View", "CONSTRAINT StopAtViolation", "INVARIANT TypeOK EmitG EmitTerm")}}},
@@ -73,16 +74,19 @@ func run(c *lib.Ctx) error {
 	for i, m := range safety {
 		w := 2
 		if i == 0 && c.Thorough() {
-			w = 8
+			w = 4
 		}
 		jobs = append(jobs, &tlcJob{name: fmt.Sprintf("MCActivation safety NS=%d ND=%d K=2 crash<=%d", m.ns, m.nd, m.crash), run: lib.TLCRun{Dir: dir, Module: "MCActivation", Workers: w, HeapGB: c.Pick(4, 12), Timeout: 13 * time.Minute,
 			Files: map[string][]byte{"MCActivation.cfg": mcCfg(m.ns, m.nd, 2, m.crash, false, "Spec", "INVARIANT TypeOK EmitM")}}})
 	}
 	var wg sync.WaitGroup
+	slots := make(chan struct{}, 3) // at most 3 model-checking JVMs at a time (+ the trace validation of V)
 	for _, j := range jobs {
 		wg.Add(1)
 		go func(j *tlcJob) {
 			defer wg.Done()
+			slots <- struct{}{}
+			defer func() { <-slots }()
 			j.res, j.err = c.TLC(j.name, j.run)
 		}(j)
 	}
